@@ -22,7 +22,7 @@ import z3
 
 from pyvc.core import (SV, SBool, SInt, SSeq, SDict, Obj, Val, VNone, BoolS, IntS, to_val, to_int, to_bool_term, cls_of, sub, cls_const,
                        class_axioms, Stub, PyRaise, Unsupported, VStr, str_id)
-from pyvc.driver import Ob
+from pyvc.driver import Ob, cover_hyps
 from pyvc.ground import Q
 from pyvc.env import _MISSING
 from pyvc.expr import BoundMethod, FilteredGen
@@ -380,7 +380,7 @@ def _run(chk, func, dflag, wflag):
     for pi, (path, out, obls, writes, cur) in enumerate(results):
         _one(chk, func, f"dict={dflag},weakref={wflag}:p{pi}", path, out, obls, cur, dflag, wflag)
     if results:
-        chk.add(Ob(func, f"cover(dict={dflag},weakref={wflag})", "pre", results[0][0].hyps, z3.BoolVal(True), expect="sat"))
+        chk.add(Ob(func, f"cover(dict={dflag},weakref={wflag})", "pre", cover_hyps(results), z3.BoolVal(True), expect="sat"))
     chk.trusted.update(I.assumed_used)
 
 
